@@ -53,33 +53,47 @@ def log_facts(cls, y, m, s):
     return f
 
 
-def build(vc, cls, shape_kind, weighted):
-    """construct the real loss object through its real __init__"""
+DEFAULT_SPREAD = {'Normal': 1.0, 'Gamma': 2.0, 'NegBinom': 1.0}
+
+
+def build(vc, cls, shape_kind, weighted, spread_kind='array', y_dtype='real'):
+    """construct the real loss object through its real __init__; returns the per-element spread
+    as a function of the index (array, scalar or the class default)"""
     n = vc.int('n', ge=2 if shape_kind == 'matrix' else 1)
     if shape_kind == 'matrix':
         p = vc.int('p', ge=2)
         shp = (n, p)
     else:
         shp = (n,)
-    y = vc.array('y', shp)
+    y = vc.array('y', shp, y_dtype)
     w = vc.array('w', shp) if weighted else None
-    sp = vc.array('spread', shp) if SPREAD[cls] else None
     idx = [z3.Int('i%d' % d) for d in range(len(shp))]
     rng = z3.And(*[z3.And(i >= 0, i < d) for i, d in zip(idx, shp)])
     vc.require('y in the support (positive)', z3.ForAll(idx, z3.Implies(rng, y.get(tuple(idx)) > 0)))
     if weighted:
         vc.require('weights positive', z3.ForAll(idx, z3.Implies(rng, w.get(tuple(idx)) > 0)))
-    if sp is not None:
-        vc.require('spread positive', z3.ForAll(idx, z3.Implies(rng, sp.get(tuple(idx)) > 0)))
+    sp_arg, sp_fn = None, None
+    if SPREAD[cls]:
+        if spread_kind == 'array':
+            sp = vc.array('spread', shp)
+            vc.require('spread positive', z3.ForAll(idx, z3.Implies(rng, sp.get(tuple(idx)) > 0)))
+            sp_arg, sp_fn = sp, (lambda ix_: sp.get(tuple(ix_)))
+        elif spread_kind == 'scalar':
+            sc = vc.real('spread_scalar')
+            vc.require('spread positive', sc > 0)
+            sp_arg, sp_fn = sc, (lambda ix_: sc)
+        else:
+            dv = z3.RealVal(DEFAULT_SPREAD[cls])
+            sp_arg, sp_fn = 'default', (lambda ix_: dv)
     c = vc.cls(LT + cls)
     args = [y, w]
-    if sp is not None:
-        args.append(sp)
+    if sp_arg is not None and not isinstance(sp_arg, str):
+        args.append(sp_arg)
     out = vc.call(c, *args)
     vc.ensure('constructor accepts valid data', out.returned)
     if not out.returned:
         return None
-    return out.value, y, w, sp, shp
+    return out.value, y, w, sp_fn, shp
 
 
 def yhat_of(vc, shp, shape_kind):
@@ -116,11 +130,12 @@ def _elem_obligation(vc, name, res, shp, expected, hyps):
         del vc.ctx.pc[L0:]
 
 
-def make(cls, method, shape_kind, weighted):
-    cid = "C14/%s.%s/%s%s" % (cls, method, shape_kind, '/weights' if weighted else '')
+def make(cls, method, shape_kind, weighted, spread_kind='array', y_dtype='real'):
+    cid = "C14/%s.%s/%s%s%s%s" % (cls, method, shape_kind, '/weights' if weighted else '',
+                                  '' if spread_kind == 'array' else '/spread=' + spread_kind, '' if y_dtype == 'real' else '/int-y')
 
     def run(vc):
-        b = build(vc, cls, 'matrix' if shape_kind == 'matrix' else 'vector', weighted)
+        b = build(vc, cls, 'matrix' if shape_kind == 'matrix' else 'vector', weighted, spread_kind, y_dtype)
         if b is None:
             return
         obj, y, w, sp, shp = b
@@ -133,7 +148,7 @@ def make(cls, method, shape_kind, weighted):
             return
         one = z3.RealVal(1)
         W = (lambda idx: w.get(tuple(idx))) if weighted else (lambda idx: one)
-        S = (lambda idx: sp.get(tuple(idx))) if sp is not None else (lambda idx: one)
+        S = sp if sp is not None else (lambda idx: one)
         Y = lambda idx: y.get(tuple(idx))
         hyps = lambda idx: [Y(idx) > 0, m_at(idx) > 0, S(idx) > 0, W(idx) > 0] + log_facts(cls, Y(idx), m_at(idx), S(idx))
         uses_w = cls in ('Square', 'Normal')      # only these kernels use the weights in `loss`
@@ -175,7 +190,7 @@ def make(cls, method, shape_kind, weighted):
         from standins import c14 as native14
         for n_ in (2, 3, 5):
             for seed in (0, 1):
-                bad, desc = native14.case(cls, method, shape_kind, weighted, n=n_, seed=seed)
+                bad, desc = native14.case(cls, method, shape_kind, weighted, n=n_, seed=seed, spread_kind=spread_kind, y_dtype=y_dtype)
                 if bad:
                     return {'reproduced': True, 'input': desc, 'observed': bad, 'model': model}
         return {'reproduced': False, 'tried': 'seeded data sets with n in {2,3,5}', 'model': model}
@@ -190,3 +205,8 @@ for _cls in ('Square', 'Normal', 'Poisson', 'Gamma', 'NegBinom'):
             make(_cls, _meth, _sk, False)
         if _meth != 'diff2Loss':
             make(_cls, _meth, 'vector', True)
+        if SPREAD[_cls]:
+            for _sk2 in ('scalar', 'default'):
+                make(_cls, _meth, 'vector', False, _sk2)
+        if _cls in ('Poisson', 'NegBinom'):
+            make(_cls, _meth, 'vector', False, 'scalar' if SPREAD[_cls] else 'array', 'int')
